@@ -5,7 +5,7 @@
 From Coq Require Import List ZArith Bool.
 From SVC Require Import Base.AMap Base.Res Base.Dec Model.Types Model.Pricing
   Model.Handlers Model.EndBlock Model.Step Proofs.Inv Proofs.BankLemmas Proofs.StepSpecs_deposit
-  Proofs.TraceLemmas Proofs.TraceSettle Proofs.DecProofs Proofs.GapC02 Proofs.GapC02b Proofs.GapC03 Proofs.GapC04 Proofs.GapC02c Proofs.GapC04b.
+  Proofs.TraceLemmas Proofs.TraceSettle Proofs.DecProofs Proofs.GapC02 Proofs.GapC02b Proofs.GapC03 Proofs.GapC04 Proofs.GapC02c Proofs.GapC04b Proofs.GapC03c.
 Import ListNotations.
 Open Scope Z_scope.
 
@@ -283,3 +283,10 @@ Theorem C04_slash_names_issued_provider : forall cfg s r k amt p c f,
   In (EvSlash r k amt) (log s) -> In (EvIssue r p c f) (log s) -> snd k = p.
 Proof. exact GapC04b.slash_names_issued_provider. Qed.
 Print Assumptions C04_slash_names_issued_provider.
+
+(* history level: total supply falls by exactly the slashed amounts, over any history *)
+Theorem C04_supply_falls_by_slashes : forall cfg h0 t0 f ops,
+  let s := run cfg (init h0 t0 f) ops in
+  supply s = supply (init h0 t0 f) - slashed_all (log s).
+Proof. exact GapC03c.supply_ledger. Qed.
+Print Assumptions C04_supply_falls_by_slashes.
